@@ -9,6 +9,7 @@ from __future__ import annotations
 
 import hashlib
 import json
+import re
 import os
 import sys
 import time
@@ -65,7 +66,7 @@ class Check:
         key = "%s:%s:%s" % (rule, construct, instance)
         if key in self._seen:
             return
-        if "ext:" in str(derived):
+        if re.search(r"ext:[\w\.:]+\(", str(derived)):
             # safety net: the derived fact contains a library application the model does not interpret (`ext:<name>`); a mismatch with the
             # expectation then says nothing about the code. Not decided (exit 2), never an alarm.
             self.unknown(rule, "%s: derived fact goes through an unmodelled library call: %s" % (instance, str(derived)[:200]))
